@@ -8,13 +8,19 @@ REG = {
         "suites": [("expr", (6000, 150000))],
         "rule": "random expression trees (depth 1-9) over the grammar's whole literal and operator vocabulary: integer literals in four bases with digit separators, reals in every "
                 "admitted form, strings with every escape form, booleans, set literals, unary + - !, all 17 binary operators, .min/.max/.count and unknown attributes, identifiers of "
-                "earlier constants and undefined ones; typed generation with 0-6% ill-typed sub-trees, plus a table of precedence traps; rendered with minimal or random redundant "
+                "earlier constants and undefined ones; typed generation with 0-6% ill-typed sub-trees, plus a table of precedence traps; string-valued expressions over texts that are "
+                "sensitive to Unicode normalisation (base letters with 1-3 combining marks of several combining classes, one- to three-level precomposed letters, Hangul jamo and "
+                "syllables, singleton decompositions, composition exclusions, compatibility characters, marks without a base) in random canonically equivalent spellings and near "
+                "misses, cut at random places - preferably where the junction composes - and rejoined with `+` in random tree shapes, compared with == / != on both sides, as elements "
+                "of sets (comparison, algebra, .count, element-wise +) and as printed values (12% of the cases, and 12% of the string leaves of the general trees); rendered with minimal or random redundant "
                 "parentheses and random blanks; observed through @print, @assert, constant initialisers, array capacities (three spellings) and @extent of a definition in a temporary "
                 "namespace read with read_namespace; non-trivial = compound tree; distinct = distinct (tree, context, rendering)",
-        "technique": "Lean 4 theorems over an executable model of literals, evaluator, printer and PEG-level parser + differential correspondence (model evaluates the tree, library evaluates the text) + independent fractions.Fraction oracle",
+        "technique": "Lean 4 theorems over an executable model of literals, evaluator, printer and PEG-level parser + differential correspondence (model evaluates the tree, library evaluates the text) + independent fractions.Fraction / unicodedata oracle",
         "level_text": "Proved in Lean 4 for the model, for all inputs: + - * / % ** (integral exponents) and the comparisons are exact field/order operations on rationals (floored modulo, 0**-n and /0 %0 rejected); "
                       "a binary operator yields a value exactly for the operand combinations of the definedness table (scalars, element-wise set/scalar in both orders, set algebra) and every other combination is an "
-                      "InvalidDefinition-class rejection; union/intersection/symmetric difference, sub/superset comparisons, element-wise application, min/max/count and the rejection of empty and heterogeneous "
+                      "InvalidDefinition-class rejection; on strings `+` concatenates the code points and nothing else, `==` holds exactly when the normal forms of the operands are equal and `!=` is its negation - for literals and for "
+                      "results of concatenations alike, on either side - so that `==` is an equivalence relation on texts (stated for every normalisation function; the driver runs the evaluator with the model's own NFC: "
+                      "canonical decomposition, canonical ordering, canonical composition with blocking, Hangul arithmetically, whose composition provably inverts its decomposition of every syllable); union/intersection/symmetric difference, sub/superset comparisons, element-wise application, min/max/count and the rejection of empty and heterogeneous "
                       "set literals; integer literals in all four bases with digit separators denote their digits' number, real literals in point and exponent notation denote exactly mantissa x 10^(+-exponent - "
                       "fraction digits); the grammar's rule layering realises the precedence table independently of redundant parentheses: EVERY token list obtained from the minimal rendering of ANY expression tree "
                       "by wrapping any sub-expressions in any number of further pairs of parentheses (the minimal and the fully parenthesising printer are two members of the family) is parsed back to the tree by "
@@ -22,15 +28,24 @@ REG = {
                       "operators before their one-character prefixes, real before integer, the three prefixed bases before decimal, true/false before identifier, both string forms, blanks skipped) invert the "
                       "renderer for every well-formed token list and every choice of blanks, so that characters -> tokens -> tree returns the tree for every admissible parenthesisation and every spacing. The model "
                       "is tied to pydsdl by running both on every generated expression; the model lexes and parses the very text handed to the library and must obtain the generated tree.",
-        "level_note": _NOTE + " Non-integral exponents (Python floats, inexact by construction), sets whose elements are sets, NFC normalisation of string equality and type expressions as atoms "
-                      "are outside the model (explicit 'inexact'/'unsupported'/'none' outcomes, excluded or skipped); they are covered by the oracle/correspondence only. pydsdl's PEG is scannerless: the "
+        "level_note": _NOTE + " Non-integral exponents (Python floats, inexact by construction), sets whose elements are sets and type expressions as atoms "
+                      "are outside the model (explicit 'inexact'/'unsupported'/'none' outcomes, excluded or skipped); they are covered by the oracle/correspondence only. NFC: the model implements UAX #15 (Ex.Ucd.nfc) "
+                      "and receives, per case, an extract of the Unicode Character Database of the Python interpreter (unicodedata: canonical combining classes, full canonical decompositions, primary composites "
+                      "= two-character canonical decompositions whose composite is its own NFC form) for the closure of the case's code points under decomposition and pairwise composition; trusted: that extract "
+                      "(the UCD itself and the completeness of the closure, harness/suites/expr.py ucd_extract) - the algorithm is not proved equal to Unicode's definition but is compared on every string-valued case "
+                      "with unicodedata.normalize (the model's normalised value 'vn' against the library's value normalised by the harness; 320 000 random strings over all characters with a decomposition or a "
+                      "combining class agreed when it was written). The oracle's reference is unicodedata.normalize alone. String values are compared in NFC form (equal strings are one value). pydsdl's PEG is scannerless: the "
                       "factorisation into a lexer (Ex.lex) and a token-level PEG (Ex.parse) is part of the hand-written model and is validated on every generated text, not proved against parsimonious.",
         "partial": ["identifiers that the grammar reads as a literal or a type (`trueish`, `uint8x`, `boolean`: syntax errors in the library, Tok.ok = false) and versioned type names as atoms are outside the "
                     "lexer theorem (the lexer answers `none` for a primitive type name and does not detect versioned ones)",
                     "string literal decoding (escapes) is modelled character by character and tied by the correspondence; integer and real literals have theorems",
                     "the lexical forms of literals (`Tok.ok`: the text is one terminal of its kind) are a decidable hypothesis of the lexer theorem; that the grammar-shaped texts are such terminals is proved for integer "
                     "literals in the four bases (C04.lexer_literals_prefixed/_decimal), for real and string literals it is checked on every generated case only",
-                    "non-integral exponents, nested sets, NFC string equality: outside the model"],
+                    "non-integral exponents, nested sets: outside the model",
+                    "NFC string equality is inside the model and the oracle; the normal form is a parameter of the theorems (C04.strings, C04.strings_equivalence hold for every normalisation function) and the "
+                    "concrete algorithm Ex.Ucd.nfc has the Hangul round trip and closed examples as theorems only - its agreement with Unicode NFC rests on the per-case character data and the correspondence",
+                    "finding F14 (open, genuine): a set identifies string elements by their raw text while == compares NFC forms ({'\\u00e9'} == {'e\\u0301'} is false, {'\\u00e9', 'e\\u0301'}.count is 2); the model "
+                    "mirrors the library, the oracle keeps the Specification's notion, and inputs whose outcome depends on it are kept out of the generator (expr.GEN_F14 = False) until it is fixed or listed"],
         "assumptions": ["lean/Model/Expr.lean mirrors grammar.parsimonious, _parser.py and _expression/*.py (validated by the expr correspondence on every run)"],
     },
     "C12": {
@@ -75,6 +90,15 @@ REG = {
 
 # --- proposed known-finding entries (genuine defects of pydsdl observed on the unchanged tree; see the suite `garbage`)
 PROPOSED_FINDINGS = [
+ {
+  "property": "C04",
+  "suite": "expr",
+  "signature": "C04/F14/set-elements-identified-by-raw-text",
+  "what": "F14 (new): string `==` / `!=` compare the NFC forms of the operands (as the Specification prescribes), but a set identifies its elements by their raw text (String.__eq__ / __hash__ in _expression/_primitive.py): `@assert {'\\u00e9'} == {'e\\u0301'}` fails, `{'\\u00e9', 'e\\u0301'}.count` is 2, `{'\\u00e9'} <= {'e\\u0301'}` is false and `{'\\u00e9'} & {'e\\u0301'}` is rejected as an empty set although `'\\u00e9' == 'e\\u0301'` is true. Kept out of the generator (expr.GEN_F14 = False) until fixed (normalise in String.__eq__/__hash__) or listed.",
+  "case": {"tree": ["bin", "eq", ["set", [["str", "'\\u00e9'", [233]]]], ["set", [["str", "'e\\u0301'", [101, 769]]]]], "env": [], "ctx": ["print"],
+           "text": "{ '\\u00e9' } == { 'e\\u0301' }", "style": "plain"},
+  "status": "open"
+ },
  {
   "property": "C13",
   "suite": "garbage",
